@@ -352,7 +352,7 @@ class TwoAddrCase(object):
                 w.step(s)
         else:
             rng = random.Random(self.walk["seed"])
-            wk = gen.Walker(rng, self.walk["flavour"], (0, 1), None, 0, None, 8, no_tick=True)
+            wk = gen.Walker(rng, self.walk["flavour"], (0, 1), None, self.walk.get("keepalive", 0), None, 8, no_tick=True)
             wk.walk(w, self.walk["n"])
         steps = gen.executed_steps(w.trace)
         w.step(("adv", 50))
@@ -422,6 +422,16 @@ class P19(Plan):
     def cases(self, tier, seed):
         A = connected(0, clean=False, win=2)
         B = connected(1, clean=True, win=1)
+        # keepalive on one or both sides: the two keepalive loops must not share anything
+        ka_a = [("adv", 3), ("pingresp", 0), ("adv", 4), ("pub", 0, 1), ("adv", 4), ("pingresp", 0), ("adv", 9)]
+        ka_b = [("adv", 2), ("pub", 1, 1), ("lose", 1, "done"), ("adv", 3), ("build", 1), ("connect", 1, True, 6, 4), ("connack", 1, 0, False), ("adv", 7)]
+        for model in MODELS:
+            cfg = Cfg(profile="pubsub", model=model, jitter="const")
+            for kaA, kaB in ((4, 0), (4, 6), (0, 6), (7, 7)):
+                for n2, mix in enumerate(interleavings(ka_a, ka_b)):
+                    if n2 % 7 == 0 or tier == "thorough":
+                        yield TwoAddrCase("keepalive-interleavings", cfg,
+                                          steps=connected(0, clean=True, ka=kaA) + connected(1, clean=True, ka=kaB) + mix)
         scripts_a = [[("pub", 0, 1), ("pub", 0, 2), ("ack", 0, "PUBREC", "old"), ("lose", 0, "lost"), ("adv", 5)],
                      [("pub", 0, 1), ("pub", 0, 1), ("pub", 0, 1), ("ack", 0, "PUBACK", "old"), ("adv", 6)],
                      [("sub", 0, "list", 2, 1), ("unsub", 0, "str", 1), ("ack", 0, "SUBACK", "old"), ("inpub", 0, 2), ("inrel", 0, "known")]]
@@ -444,7 +454,7 @@ class P19(Plan):
             cfg = Cfg(profile=rng.choice(["pubsub", "pubsub", "pub", "sub"]), model=rng.choice(MODELS), jitter="const",
                       jitter_value=rng.choice([0.0, 0.5]), close_delay=rng.choice([0.0, 0.5]), ondisc=rng.random() < 0.7)
             yield TwoAddrCase("walk", cfg, walk={"seed": rng.randrange(1 << 30), "flavour": rng.choice(["mixed", "pubflow", "lossy", "subflow", "timers"]),
-                                                 "n": rng.choice([20, 40, 80])})
+                                                 "n": rng.choice([20, 40, 80]), "keepalive": rng.choice([0, 0, None, None, 5])})
 
     def case_from_replay(self, d):
         return TwoAddrCase(d["family"], Cfg(**d["cfg"]), steps=[tuple(s) for s in d["steps"]])
